@@ -136,6 +136,16 @@ def dispatch_eval(prog):
         run({"k1": 1})
         if any(c[0] in ("push", "pop") for c in log):
             out["scope"] = "a scope is pushed or popped for a schema without an id"
+        # the validator's own (root) schema is no exception: its id is entered too -- the resolver it was given may have another base
+        for root in ({"$id": "http://root/own/", "k1": 1}, {"$id": "http://root/own/", "k0": 1, "k2": 1}):
+            del log[:]
+            vr = V(root, resolver=Res(log))
+            for how in ("default", "explicit", "again"):
+                del log[:]
+                list(g(vr, "iter_errors")(I) if how == "default" else g(vr, "iter_errors")(I, root))
+                kinds = [c[0] for c in log]
+                if kinds[:1] != ["push"] or log[0][1] != "http://root/own/" or kinds[-1:] != ["pop"] or kinds.count("push") != 1:
+                    out["scope"] = "for the validator's own schema (%s call) the id is not entered around its keywords: %r" % (how, kinds)
         try:
             run({"$id": "http://x/sub/", "kx": 1})
             out["scope"] = "an exception from a keyword function is swallowed"
@@ -287,6 +297,22 @@ def classes_eval(prog):
                 except PyRaise as pr:
                     if pr.name != "TypeError":
                         out["extend"] = "extending a default_types parent with a type checker raises %s" % pr.name
+        # adding one keyword changes that keyword only -- also when the keyword is $ref and the parent had none: whether the members
+        # next to a $ref are looked at does not depend on the class having a function for $ref
+        if out["extend"] is None:
+            P0 = ev.call_func(prog.func("validators.create"), [], {"meta_schema": {"id": "http://m/noref#"}, "validators": {"k1": table["k1"], "k2": table["k2"]}, "id_of": id_of})
+            C0 = ev.call_func(extend, [P0], {"validators": {"$ref": table["$ref"]}})
+            I0 = Tok("instance", ("object",))
+            for sch in ({"$ref": "#/x", "k1": 1, "k2": 2}, {"k1": 1, "$ref": "#/x"}, {"k1": 1, "k2": 2}, {"id": "http://m/sub/", "$ref": "#/x", "k2": 2}):
+                seen_by = {}
+                for lab, cls_ in (("parent", P0), ("child", C0)):
+                    del log[:]
+                    list(g(cls_(sch, resolver=Res(log)), "iter_errors")(I0))
+                    seen_by[lab] = [c[1] if c[0] == "call" else c[0] for c in log if not (c[0] == "call" and c[1] == "$ref")]
+                if seen_by["parent"] != seen_by["child"]:
+                    out["extend"] = ("adding a function for $ref with extend() changes what the *other* keywords do on the schema %r: the parent runs %r, the child %r "
+                                     "(whether a $ref hides its siblings must not depend on the class knowing $ref)" % (sch, seen_by["parent"], seen_by["child"]))
+                    break
         # registration
         out["registers"] = None
         reg_v = ev.module_value("validators", "validators")
@@ -323,6 +349,22 @@ def classes_eval(prog):
                 if k in reg_m:
                     del reg_m[k]
             reg_v.pop("v4", None)
+            # the id a class is registered under is read from its META_SCHEMA *when it is registered*: extend(), replace META_SCHEMA
+            # (the documented recipe), then validates()
+            V5 = ev.call_func(prog.func("validators.create"), [], {"meta_schema": {"id": "http://m/v5#"}, "validators": {}, "version": "v5", "id_of": id_of})
+            W5 = ev.call_func(extend, [V5], {})
+            if isinstance(W5.vals, dict) and "META_SCHEMA" in W5.vals:
+                W5.vals["META_SCHEMA"] = {"id": "http://m/w5#"}
+                deco = ev.call_func(prog.func("validators.validates"), ["w5"], {})
+                deco(W5)
+                if reg_m.get("http://m/w5") is not W5 or reg_m.get("http://m/v5") is not V5 or reg_v.get("w5") is not W5:
+                    out["registers"] = ("a derived class whose META_SCHEMA was replaced before validates() is not registered under its own new id, or takes its "
+                                        "parent's place (ids now %r)" % (sorted(iter(reg_m)),))
+            for k in ("http://m/v5", "http://m/w5"):
+                if k in reg_m:
+                    del reg_m[k]
+            for k in ("v5", "w5"):
+                reg_v.pop(k, None)
         # own resolver
         out["own-resolver"] = None
         s1, s2 = {"id": "http://s/one", "k0": 1}, {"id": "http://s/two"}
@@ -337,6 +379,22 @@ def classes_eval(prog):
         given = Res([])
         if g(V(s1, resolver=given), "resolver") is not given:
             out["own-resolver"] = "a resolver given to the constructor is not used"
+
+        class _Empty:
+            """a collaborator that happens to be falsy (an empty registry has length 0): still the one that was given"""
+            def __len__(self):
+                return 0
+
+            def push_scope(self, s):
+                pass
+
+            def pop_scope(self):
+                pass
+        fc0, rs0 = _Empty(), _Empty()
+        v0 = V(s1, resolver=rs0, format_checker=fc0)
+        if g(v0, "format_checker") is not fc0 or g(v0, "resolver") is not rs0:
+            out["own-resolver"] = ("a format checker or resolver that is falsy (an object with length 0, e.g. a checker with no formats registered yet) "
+                                   "is dropped by the constructor instead of being used as given")
         for k in ("http://other/schema", "http://m/v1"):
             if k in reg_m:
                 del reg_m[k]
@@ -612,3 +670,77 @@ def check_schema_eval(prog):
     except PyRaise as pr:
         out["raises"] = "raises %s (%s)" % (pr.name, pr.msg)
     return out
+
+
+class _StackRes:
+    """resolver stand-in that keeps the stack of entered scopes"""
+    def __init__(self):
+        self.stack = []
+        self.events = []
+
+    def push_scope(self, s):
+        self.stack.append(s)
+        self.events.append(("push", s))
+
+    def pop_scope(self):
+        self.events.append(("pop", self.stack[-1] if self.stack else None))
+        if self.stack:
+            self.stack.pop()
+
+
+def scope_probe_eval(prog, draft):
+    """Which resolution scope is in force while a subschema's keywords run?  The class create() builds is given the draft's *own*
+    keyword functions plus a probe keyword; every applicator of the draft is handed three failing subschemas that each carry their
+    own id and the probe, over an array, an object and a number.  At each probe call the scopes entered must be exactly that
+    subschema's id (what a `$ref` inside it would be resolved against) -- not a sibling's left over from a branch whose errors are
+    still being produced, nor the parent's missing.  -> ({keyword: message | None}, number of probe calls) or None."""
+    from ..tokeval import FuncRef
+    id_key = "id" if draft in ("draft3", "draft4") else "$id"
+    out, n_probes = {}, 0
+    try:
+        table = prog.tables.drafts[draft].table
+        for K in sorted(table):
+            if K in ("$ref", "format", "pattern", "type", "enum", "const", "required"):
+                if not (K == "type" and draft == "draft3"):
+                    continue
+            subs = [{id_key: "http://x/%s/%d/" % (K.strip("$"), i), "kprobe": i} for i in range(3)]
+            shapes = [list(subs), subs[0], {"a": subs[0], "b": subs[1], "c": subs[2]}, {"^a": subs[0], "^b": subs[1], "^c": subs[2]}]
+            problem, probes_k = None, 0
+            for value in shapes:
+                for inst in ([1, 2, 3], {"a": 1, "b": 2, "c": 3}, 5):
+                    ev = Ev(prog, fuel=60000, real_errors=True)
+                    Obj.ev = ev
+                    VE = ClsRef(ev, prog.cls("exceptions.ValidationError"))
+                    res = _StackRes()
+                    seen = []
+
+                    def kprobe(validator, value_, instance, schema, res=res, seen=seen, VE=VE):
+                        seen.append((schema.get(id_key), list(res.stack)))
+                        return iter([VE("probe-%s-a" % value_), VE("probe-%s-b" % value_)])
+                    kws = {k: FuncRef(ev, f) for k, f in table.items()}
+                    kws["kprobe"] = kprobe
+                    id_of = lambda s, id_key=id_key: s.get(id_key, "") if isinstance(s, dict) else ""
+                    try:
+                        V = ev.call_func(prog.func("validators.create"), [], {"meta_schema": {id_key: "http://m/probe#"}, "validators": kws, "id_of": id_of})
+                        schema = {K: value}
+                        if K == "if":
+                            schema.update({"then": subs[1], "else": subs[2]})
+                        if K == "additionalItems":
+                            schema["items"] = []
+                        v = V(schema, resolver=res)
+                        list(ev.obj_getattr(v, "iter_errors")(inst))
+                    except (PyRaise, Undecided, RecursionError):
+                        continue        # this shape of value is not one the keyword takes
+                    for own, stack in seen:
+                        probes_k += 1
+                        if stack != [own] and problem is None:
+                            problem = ("%s %s over %r: while the keywords of the subschema with id %r run, the scopes entered are %r (expected exactly its own id: "
+                                       "a reference inside it would be resolved against the wrong document)" % (draft, K, inst, own, stack))
+                    if res.stack and problem is None:
+                        problem = "%s %s over %r: scopes %r are still entered after the errors were exhausted" % (draft, K, inst, res.stack)
+            if probes_k:
+                out[K] = problem
+                n_probes += probes_k
+    except Undecided:
+        return None
+    return out, n_probes
